@@ -57,6 +57,17 @@ def _w():
     al = fn(4, [(5, 'arr'), (6, 'int')], 'int', ('ret', ('bin', 'add', ('at', V(5), V(6)), ('len', V(5)))))
     w['c03:array-literal-first-element-twice'] = (prog([pr, al, MAIN], [(1, 'arr', ('arr', [N(4), N(5)]))]),
                                                   {4: [('let', False, 7, 'arr', ('arr', [CALL(2, N(8)), N(9)])), ('assert', EQ(CALL(4, V(7), N(0)), N(10)))]})
+    # strings as computed values: str_substring with start = length of the string is "" in the language and in both engines, void in the
+    # evaluator (the assertion fails at compile time); same program as Back/InterpWitness.spstr_past_end
+    sfn = fn(2, [(3, 'str'), (4, 'int')], 'str', ('ret', ('s2', 'plus', V(3), ('s1', 'ofint', V(4)))))
+    lfn = fn(4, [(5, 'str')], 'int', seq(P(V(5)), ('ret', ('s1', 'len', V(5)))))
+    pstr = prog([sfn, lfn, MAIN], [(1, 'str', ('str', b'abc'))])
+    w['c03:builtin:str_substring:start-at-or-past-the-end-is-void-in-the-evaluator'] = (
+        pstr, {4: [('assert', EQ(('substr', V(1), N(3), N(2)), ('str', b'')))]})
+    # `set s s` on a string variable (also through cond): the evaluator frees the old value and stores the pointer it just freed;
+    # glibc aborts nanoc ("free(): invalid pointer"), no executable
+    sa = fn(2, [], 'int', seq(('let', True, 3, 'str', ('str', b'b_')), ('set', 3, ('cond', ('bin', 'lt', N(1), N(2)), V(3), ('str', b'x'))), P(V(3)), ('ret', N(1))))
+    w['c03:string-self-assign-crash'] = (prog([sa, MAIN]), {2: [('assert', EQ(CALL(2), N(1)))]})
     return w
 
 
@@ -90,6 +101,20 @@ def _corpus():
                                                                 ('assert', EQ(CALL(4, V(7), N(1)), N(11))), ('assert', EQ(CALL(4, V(1), N(0)), N(7)))]})
     # an index out of range inside a shadow test: the evaluator ends nanoc with exit status 1 on the spot -- no executable
     c['c06:corpus:out-of-range-in-shadow-test'] = (parr, {4: [P(N(1)), ('assert', EQ(CALL(4, V(1), N(2)), N(0)))]})
+    # strings as computed values inside names_apart (Back/InterpWitness.spstr_good + a false assertion at the end): + / int_to_string,
+    # str_equals, str_concat through a printing call, str_contains, char_at, str_substring of a literal from a start inside it
+    sfn = fn(2, [(3, 'str'), (4, 'int')], 'str', ('ret', ('s2', 'plus', V(3), ('s1', 'ofint', V(4)))))
+    lfn = fn(4, [(5, 'str')], 'int', seq(P(V(5)), ('ret', ('s1', 'len', V(5)))))
+    pstr = prog([sfn, lfn, MAIN], [(1, 'str', ('str', b'abc'))])
+    S_ = lambda b: ('str', b)
+    c['c06:corpus:string-builtins-last-assertion-false'] = (pstr, {2: [
+        ('let', False, 7, 'str', CALL(2, V(1), N(-42))), P(V(7)),
+        ('assert', ('s2', 'equals', V(7), S_(b'abc-42'))),
+        ('assert', EQ(CALL(4, ('s2', 'concat', V(7), S_(b'!'))), N(7))),
+        ('assert', ('s2', 'contains', V(7), S_(b'c-'))),
+        ('assert', EQ(('s2', 'charat', V(7), N(1)), N(98))),
+        ('assert', EQ(('substr', S_(b'hello'), N(1), N(300)), S_(b'ello'))),
+        ('assert', EQ(('s1', 'len', V(7)), N(5)))]})
     # ---- which shadow blocks run: ALL of them (several per function, before / far from the function, for imported functions)
     clamp = fn(2, [(3, 'int')], 'int', seq(('if', ('bin', 'lt', V(3), N(0)), ('ret', N(0)), ('skip',)), ('ret', V(3))))
     other = fn(4, [(5, 'int')], 'int', ('ret', ('bin', 'mul', V(5), N(3))))
